@@ -15,6 +15,7 @@ part ops : ["wrap", kind]  kind in def|async|method|if|try|with|for|nested|while
            ["addarg", k, s] k-th single-line call gets one more argument (s = pos|kw|star|comma)
            ["quote", k, s]  k-th plain string literal: delimiters flipped / the other quote character put inside
            ["tuplerhs",k,s] k-th simple assignment gets a bare-tuple or lambda right-hand side
+           ["insetlist",k]  k-th statement-level call is wrapped in set([...]) (a use-set-literal site on the same line)
            ["nonascii", k]  non-ASCII string statement in front of the k-th single-line call, on the same line
            ["breakattr", k] k-th `a.b(args)` -> `(a` newline `.b(args))`
            ["kwcall", k]    k-th call with keywords gets `_p=_other(<copies of its keywords>)`: same keyword names on an unrelated nested call
@@ -462,6 +463,32 @@ def op_tuplerhs(code, k, style):
     return "".join(lines)
 
 
+def op_insetlist(code, k):
+    """k-th single-line statement `x = CALL` / `CALL` gets its call wrapped: `x = set([CALL])`.  The line is then a
+    site of use-set-literal as well as of whatever rewrites CALL: two codemods of one run edit the same line."""
+    try:
+        tree = ast.parse(code)
+    except SyntaxError:
+        return code
+    cands = []
+    for n in ast.walk(tree):
+        v = None
+        if isinstance(n, ast.Assign) and len(n.targets) == 1 and isinstance(n.targets[0], ast.Name):
+            v = n.value
+        elif isinstance(n, ast.Expr):
+            v = n.value
+        if isinstance(v, ast.Call) and v.lineno == v.end_lineno == n.lineno and not (isinstance(v.func, ast.Name) and v.func.id == "set"):
+            cands.append(v)
+    if not cands:
+        return code
+    cands.sort(key=lambda n: (n.lineno, n.col_offset))
+    v = cands[k % len(cands)]
+    lines = code.splitlines(keepends=True)
+    pre, txt, post = _byte_slice(lines[v.lineno - 1], v.col_offset, v.end_col_offset)
+    lines[v.lineno - 1] = pre + "set([" + txt + "])" + post
+    return "".join(lines)
+
+
 def op_kwcall(code, k):
     """k-th single-line call that has keyword arguments gets one more keyword whose value is an unrelated call
     carrying copies of the same keywords: `f(a, verify=False)` -> `f(a, verify=False, _p=_other(verify=False))`."""
@@ -590,8 +617,8 @@ def render_part(part, i):
             new, dl, dc = fn(code, op[1], op[2]), 0, 0
             if doc is not None:
                 new = code
-        elif op[0] in ("nonascii", "breakattr", "kwcall", "dictsplat"):
-            new, dl, dc = {"nonascii": op_nonascii, "breakattr": op_breakattr, "kwcall": op_kwcall, "dictsplat": op_dictsplat}[op[0]](code, op[1]), 0, 0
+        elif op[0] in ("nonascii", "breakattr", "kwcall", "dictsplat", "insetlist"):
+            new, dl, dc = {"nonascii": op_nonascii, "breakattr": op_breakattr, "kwcall": op_kwcall, "dictsplat": op_dictsplat, "insetlist": op_insetlist}[op[0]](code, op[1]), 0, 0
             if doc is not None:
                 new = code
         elif op[0] == "mlimport":
